@@ -7,5 +7,10 @@ func init() {
 	gfSpecs = append(gfSpecs,
 		gfSpec{Pkg: "./pkg/core/mempool", Recv: "Pool", Func: "checkPolicy", Lean: "mempoolCheckPolicy"},
 		gfSpec{Pkg: "./pkg/core/mempool", Recv: "Pool", Func: "count", Lean: "mempoolCount"},
+		gfSpec{Pkg: "./pkg/core/mempool", Recv: "Pool", Func: "loadPolicy", Lean: "mempoolLoadPolicy"},
+		gfSpec{Pkg: "./pkg/core/mempool", Func: "checkBalance", Lean: "mempoolCheckBalance"},
+		gfSpec{Pkg: "./pkg/core/mempool", Recv: "Pool", Func: "tryAddSendersFee", Lean: "mempoolTryAddSendersFee"},
+		gfSpec{Pkg: "./pkg/core/mempool", Recv: "Pool", Func: "containsKey", Lean: "mempoolContainsKey"},
+		gfSpec{Pkg: "./pkg/core/mempool", Recv: "Pool", Func: "TryGetValue", Lean: "mempoolTryGetValue"},
 	)
 }
